@@ -133,10 +133,10 @@ static void string_outputs(const ST::string &s, const S &bytes)
     route<char16_t>("string.to_std_string(u16string&)", m, true, e.e16, [&] { S16 r = u"junk"; s.to_std_string(r); return r; });
     route<char32_t>("string.to_std_string(u32string&)", m, true, e.e32, [&] { S32 r = U"junk"; s.to_std_string(r); return r; });
     route<char>("string.to_buffer(char)", m, true, bytes, [&] { ST::char_buffer b("zz", 2); s.to_buffer(b); return b; });
-    route<char>("string.to_buffer(char,latin1)", m, true, e.eL, [&] { ST::char_buffer b; s.to_buffer(b, false); return b; });
-    route<char16_t>("string.to_buffer(utf16)", m, true, e.e16, [&] { ST::utf16_buffer b; s.to_buffer(b); return b; });
-    route<char32_t>("string.to_buffer(utf32)", m, true, e.e32, [&] { ST::utf32_buffer b; s.to_buffer(b); return b; });
-    route<wchar_t>("string.to_buffer(wchar)", m, true, to_w(e.e32), [&] { ST::wchar_buffer b; s.to_buffer(b); return b; });
+    route<char>("string.to_buffer(char,latin1)", m, true, e.eL, [&] { ST::char_buffer b("previous contents, long enough for the heap", 42); s.to_buffer(b, false); return b; });
+    route<char16_t>("string.to_buffer(utf16)", m, true, e.e16, [&] { ST::utf16_buffer b(u"previous contents, long enough", 29); s.to_buffer(b); return b; });
+    route<char32_t>("string.to_buffer(utf32)", m, true, e.e32, [&] { ST::utf32_buffer b(U"prev", 4); s.to_buffer(b); return b; });
+    route<wchar_t>("string.to_buffer(wchar)", m, true, to_w(e.e32), [&] { ST::wchar_buffer b(L"previous contents, long enough", 29); s.to_buffer(b); return b; });
     route<char>("string.view", m, true, bytes, [&] { return S(s.view()); });
     route<char>("string.view(1,n-1)", m, true, bytes.empty() ? bytes : bytes.substr(1), [&] { return bytes.empty() ? S(s.view()) : S(s.view(1)); });
     route<char>("string.to_std_string(u8string&)", m, true, bytes, [&] { std::u8string r = u8"junk"; s.to_std_string(r); return r; });
@@ -151,9 +151,9 @@ static void string_outputs(const ST::string &s, const S &bytes)
     route<char>("string.to_std_string(&,false,substitute_invalid) [deprecated]", m, true, e.eL, [&] { S r = "junk"; s.to_std_string(r, false, ST::substitute_invalid); return r; });
     route<char>("string.to_std_string(&,false,check_validity) [deprecated]", m, e.okLs, e.eLs, [&] { S r = "junk"; s.to_std_string(r, false, ST::check_validity); return r; });
     route<char>("string.to_std_string(true,assume_valid) [deprecated]", m, true, bytes, [&] { return s.to_std_string(true, ST::assume_valid); });
-    route<char>("string.to_buffer(char,false,substitute_invalid) [deprecated]", m, true, e.eL, [&] { ST::char_buffer b; s.to_buffer(b, false, ST::substitute_invalid); return b; });
+    route<char>("string.to_buffer(char,false,substitute_invalid) [deprecated]", m, true, e.eL, [&] { ST::char_buffer b("prev", 4); s.to_buffer(b, false, ST::substitute_invalid); return b; });
     route<char>("string.to_buffer(char,false,check_validity) [deprecated]", m, e.okLs, e.eLs, [&] { ST::char_buffer b; s.to_buffer(b, false, ST::check_validity); return b; });
-    route<char>("string.to_buffer(char,true,check_validity) [deprecated]", m, true, bytes, [&] { ST::char_buffer b; s.to_buffer(b, true, ST::check_validity); return b; });
+    route<char>("string.to_buffer(char,true,check_validity) [deprecated]", m, true, bytes, [&] { ST::char_buffer b("previous contents, long enough for the heap", 42); s.to_buffer(b, true, ST::check_validity); return b; });
     route<char>("string.c_str/u8_str", m, true, bytes, [&] { return S(s.c_str(), s.size()) == S(reinterpret_cast<const char *>(s.u8_str()), s.size()) ? S(s.data(), s.size()) : S("c_str and u8_str differ"); });
 }
 
@@ -208,6 +208,10 @@ static void from_utf8(const Input &in, bool full)
             route<char>("string.set(char_buffer) over long", mn, oks, wants, [&] { ST::string s(LONG_OLD); s.set(cb, m); return s; });
             route<char>("string.set(char_buffer&&) over long", mn, oks, wants, [&] { ST::string s(LONG_OLD); ST::char_buffer t(cb); s.set(std::move(t), m); return s; });
             route<char>("string=string&& over long", mn, oks, wants, [&] { ST::string s(LONG_OLD); s = ST::string(p, n, m); return s; });
+            // a string that holds these bytes verbatim, re-validated through its own storage: same outcome as through any other pointer
+            route<char>("string.set(own c_str,size)", mn, oks, wants, [&] { ST::string s = ST::string::from_validated(p, n); s.set(s.c_str(), s.size(), m); return s; });
+            route<char>("string.set(own view)", mn, oks, wants, [&] { ST::string s = ST::string::from_validated(p, n); s.set(s.view(), m); return s; });
+            route<char>("string.set(own u8_str,size)", mn, oks, wants, [&] { ST::string s = ST::string::from_validated(p, n); s.set(s.u8_str(), s.size(), m); return s; });
             route<char>("string(std::string)", mn, oks, wants, [&] { return ST::string(b, m); });
             route<char>("string(string_view)", mn, oks, wants, [&] { return ST::string(std::string_view(p, n), m); });
             route<char>("string(u8string)", mn, oks, wants, [&] { return ST::string(std::u8string(p8, n), m); });
@@ -988,7 +992,13 @@ static void huge_result_phase()
             size_t units = 0;
             if (i == 0) { units = target / 2; std::string in(units, static_cast<char>(0xE9)); out = ST::latin_1_to_utf8(in.data(), in.size()); }
             else if (i == 1) { units = target / 3 + 1; std::u16string in(units, char16_t(0x4E2D)); out = ST::utf16_to_utf8(in.data(), in.size(), ST::check_validity); }
-            else { units = target / 4; std::u32string in(units, char32_t(0x1F600)); out = ST::utf32_to_utf8(in.data(), in.size(), ST::check_validity); }
+            else { units = target / 4; std::u32string in(units, char32_t(0x1F600)); out = ST::utf32_to_utf8(in.data(), in.size(), ST::check_validity);
+                   // the same units through the straight-copy wchar_t conversions (64 Mi+ units, 256 MiB+ of data in and out)
+                   ST::wchar_buffer w = ST::utf32_to_wchar(in.data(), in.size(), ST::check_validity);
+                   if (w.size() != units || w[0] != wchar_t(0x1F600) || w[units - 1] != wchar_t(0x1F600) || w.data()[units] != 0) fail("wrong-units", "utf32_to_wchar of the huge input");
+                   ST::utf32_buffer back = ST::wchar_to_utf32(w, ST::check_validity);
+                   if (back.size() != units || back[units / 2] != char32_t(0x1F600) || back.data()[units] != 0) fail("wrong-units", "wchar_to_utf32 of the huge input");
+                   vrt::evals(2); }
             vrt::evals();
             const size_t per = i == 0 ? 2 : i == 1 ? 3 : 4;
             static const char *const enc[] = {"\xC3\xA9", "\xE4\xB8\xAD", "\xF0\x9F\x98\x80"};
